@@ -355,7 +355,14 @@ def check(run, terrs):
     if not binary:
         run.obligation("harness.build", False, err)
         return core.conclude(run, False, err, [], [])
-    deviating = memo_table_obligations(run)
+    stale = [m for n, m in terrs if n == "GenMemo"]
+    if stale:
+        # the translator did not understand the source (the obligation translator.GenMemo already failed);
+        # Gen/GenMemo.v is then left over from an earlier run and says nothing about this tree
+        run.log("source tie: translator/gens/memo.py rejected the source: " + stale[0][:300])
+        deviating = []
+    else:
+        deviating = memo_table_obligations(run)
     if deviating:
         run.log("source tie: the translated memo protocol deviates from the model cell at: " + ", ".join(deviating))
     # the four memo sites, each cell reached twice / re-entrantly / again after an error (first: a failure here
